@@ -17,6 +17,12 @@ CLAIMED = {
             "symbolic execution of the real update/reset of 14 detectors with z3: one inductive step from an arbitrary "
             "state (DDM, EDDM, STEPD, PageHinkley; unbounded parameters) and bounded histories with free numeric decisions "
             "(CUSUM, ADWIN, ADWINAccuracy, LFR, kdq-tree x2, HDDDM, CDBD, NNDVI, PCACD)"),
+    "C04": ("DESIGN.md 7/C04",
+            "exact real arithmetic instead of IEEE doubles; CUSUM pre-state satisfies the buffer/list length invariant; "
+            "zero deviation inside burn-in assumed away; specification in specs/sequential_tests.py",
+            "symbolic execution of the real CUSUM/PageHinkley.update with z3 (nlsat) against reference recurrences: one "
+            "inductive step from an arbitrary state (incl. the update after an alarm with re-estimation from the buffered "
+            "observations) and short histories from the constructor"),
     "C05": ("DESIGN.md 7/C05",
             "the executable specification (specs/label_detectors.py) takes the running-deviation recurrence from the tree; "
             "B mode uses the real doubles and real scipy; S mode uses exact reals and an uninterpreted monotone Phi",
